@@ -248,6 +248,11 @@ func TypesEqual(a, b Type) bool {
 	a = GetUnderlyingType(a)
 	b = GetUnderlyingType(b)
 
+	if a == nil || b == nil {
+		// e.g. a union whose only case is null
+		return a == nil && b == nil
+	}
+
 	switch ta := a.(type) {
 	case *SimpleType:
 		tb, ok := b.(*SimpleType)
